@@ -100,3 +100,26 @@ Example C02_nonvacuous :
   exists s', sessions_run (create KBytes 2) [[Put [1] [2]; Put [3] []]; [Get [1]; Del [3]; Len]; [Get [3]; Has [1]]]
              = Ok (s', [[DUnit; DUnit]; [DOpt (Some [2]); DOpt (Some []); DNum 1]; [DOpt None; DBool true]]).
 Proof. eexists. vm_compute. reflexivity. Qed.
+
+(** AT BYTE LEVEL (Io.v): re-opening the files left at close - [Io.open_existing] takes NO table-size
+    or buffer parameter for the contents: the bucket count is read from the header - yields a map
+    with the stored table size over exactly the same bytes, and every history of calls after the
+    re-open, performed with its real seeks, reads and writes, returns what the ideal map returns *)
+From Aby Require Import Io Io_base Io_htx Io_run Io_open.
+Import Io.
+
+Theorem C02_byte_level_reopen_state : forall s t h k v st0 m st1,
+  wf_state s -> fits64 s -> render s = Ok (h, k, v) -> st_images st0 = (h, k, v) ->
+  open_existing t st0 = Ok (Opened m, st1) ->
+  m_kt m = t /\ m_n m = nb (hx s) /\ Io.images m = (h, k, v) /\ m_st m = st1 /\
+  (forall f, fcs (get_file st1 f) = fcs (get_file st0 f)).
+Proof. exact Io_open_state. Qed.
+
+Theorem C02_byte_level_history_after_reopen : forall s sp h k v st0 ops s' outs,
+  wf_state s -> represents s sp -> render s = Ok (h, k, v) -> st_images st0 = (h, k, v) ->
+  0 < fcs (get_file st0 FKey) -> 0 < fcs (get_file st0 FVal) ->
+  Forall (op_wf (kt s)) ops -> sized s ops -> store_run s ops = Ok (s', outs) ->
+  exists m st1 m', open_existing (kt s) st0 = Ok (Opened m, st1) /\ ro_step st0 st1 /\
+    io_run m ops = Ok (m', outs) /\ simg s' m' /\ wf_state s' /\
+    represents s' (fst (spec_run sp ops)) /\ outs = snd (spec_run sp ops).
+Proof. exact Io_reopen_then_history. Qed.
